@@ -38,9 +38,9 @@ ASSUMPTIONS = [
 ]
 
 ROOT = "rns"
-NS_PATHS = [[], ["sub"], ["sub", "deep"], ["rns"], ["sub", "rns"], ["Sub"]]
+NS_PATHS = [[], ["sub"], ["sub", "deep"], ["rns"], ["sub", "rns"], ["Sub"], ["a", "b", "c", "d", "e", "f", "g"], ["a", "b", "c", "d", "e", "f", "g", "h"], ["n1", "n2", "n3", "n4", "n5", "n6", "n7", "n8", "n9", "n10", "n11", "n12"]]
 SHORTS = ["T", "Type_1"]
-VERSIONS = [[0, 1], [1, 0], [255, 255]]
+VERSIONS = [[0, 1], [1, 0], [255, 255], [1, 100], [2, 0], [2, 117], [3, 17], [0, 200], [2, 0], [17, 42], [174, 2]]  # incl. pairs that coincide under major * 100 + minor / digit concatenation
 PORTS = [None, 6200]
 RF_DESIGNATIONS = ["abs-abs", "rel-rel", "rel-name", "rel-none", "symlink", "dotdot", "two-roots", "two-roots-reversed", "abs-name", "abs-rel", "rel-abs", "str-args",
                    "abs-names-inner-first", "abs-names-outer-first", "rel-names-inner-first", "rel-names-outer-first", "abs-names-other-first",
